@@ -806,6 +806,9 @@ impl Parser {
     }
 
     fn parse_expr_bp(&mut self, binding_power: u8) -> Result<Rc<Expr>, Box<Error>> {
+        // an operand may start on a continuation line, whether or not it starts with a prefix
+        // operator (parse_expr_term skips the newlines for the other operands)
+        self.skip_newlines();
         let lo = self.current_token().span.lo;
 
         // pratt
